@@ -33,7 +33,11 @@ def allmat():
 def mat(name, created=None):
     """raw material; 'ecdh_p256_0+kdf10.9' = the same key with KDF hash 10 / KEK cipher 9 (legal, non-default parameters)"""
     base, _, var = name.partition('+kdf')
+    base, _, alg = base.partition('+alg')       # 'rsa1024_1+alg3' = the same RSA key written under the deprecated sign-only identifier
     k = dict(allmat()[base])
+    if alg:
+        k['alg'] = int(alg)
+        k['name'] = name
     if var:
         h, c = var.split('.')
         k['kdf_hash'], k['kdf_sym'] = int(h), int(c)
